@@ -1210,13 +1210,15 @@ fn generate<C: Crypto>(crypto: &C, tier: &str, seed: u64) -> (Vec<String>, BTree
         // sealed for the opposite direction (B -> A) with B's sending key
         let hdr5 = mk_hdr(None, None, None, 9, 0, 6000, 60, 0x05, 1, 2, None, None);
         let (e5, w5) = honest(crypto, 12, NODE_B, &hdr5, &payload);
+        // sealed with the right key but with node id 0 in the nonce (as an unauthenticated peer would)
+        let (e6, w6) = honest(crypto, 11, 0, &hdr1, &payload);
         let hl = e1.aad.len();
         let transplant = |h: &[u8], b: &[u8]| -> String {
             let mut w = h.to_vec();
             w.extend_from_slice(b);
             format!("w{}", hex(&w))
         };
-        let world = vec![e1.clone(), e2.clone(), e3.clone(), e4.clone(), e5.clone()];
+        let world = vec![e1.clone(), e2.clone(), e3.clone(), e4.clone(), e5.clone(), e6.clone()];
         let mut v4mapped = addr_a();
         v4mapped.v6 = true;
         v4mapped.ip = 0xffff_0000_0000u128 | addr_a().ip;
@@ -1232,6 +1234,7 @@ fn generate<C: Crypto>(crypto: &C, tier: &str, seed: u64) -> (Vec<String>, BTree
             format!("w{}", hex(&w3)),
             format!("w{}", hex(&w4)),
             format!("w{}", hex(&w5)),
+            format!("w{}", hex(&w6)),
             // protocol header bytes of one spliced into the ciphertext of the other
             transplant(&w1[..hl + 6], &w2[hl + 6..]),
             // tag transplant
